@@ -113,6 +113,7 @@ int libcperciva_asprintf(char ** ret, const char * fmt, ...)
 	o[n] = 0; *ret = o;
 	return (int)n;
 }
+struct sock_addr; struct sock_addr ** stub_resolve(const char *);	/* forward declaration for the native replay (calls are rebound textually there) */
 static int host_calls; static struct sock_addr * HOSTRES[1];
 struct sock_addr ** stub_host(const char * addr, const char * ports)
 {
@@ -426,4 +427,86 @@ void h_pretty(void)
 	CHECK(sock_addr_cmp(res[0], &sa) == 0, "compares equal to the original");
 	REACHED();
 	sock_addr_freelist(res); free(s);
+}
+
+/* ---- h_duplist: sock_addr_duplist copies the list element by element, in order, NULL-terminated ---- */
+#ifndef NLIST
+#define NLIST 2
+#endif
+void h_duplist(void)
+{
+	struct sock_addr * l[NLIST + 1];
+	for (int i = 0; i < NLIST; i++) { l[i] = mk(NAMELEN); ASSUME(l[i] != NULL); }
+	l[NLIST] = NULL;
+	struct sock_addr ** d = sock_addr_duplist(l);
+#ifndef MMF
+	CHECK(d != NULL, "duplist succeeds when allocation does");
+#endif
+	if (d != NULL) {
+		for (int i = 0; i < NLIST; i++) {
+			CHECK(d[i] != NULL && d[i] != l[i] && sock_addr_cmp(d[i], l[i]) == 0, "element i is a fresh copy of element i");
+			if (d[i] == NULL) break;
+		}
+		CHECK(d[NLIST] == NULL, "NULL-terminated, same length");
+		sock_addr_freelist(d);
+	}
+	for (int i = 0; i < NLIST; i++) sock_addr_free(l[i]);	/* --memory-leak-check: a failed duplist leaves nothing behind */
+	REACHED();
+}
+
+/* ---- h_resolve_one: first address of the resolver's list, the rest released ---- */
+#ifndef NRES
+#define NRES 2
+#endif
+static struct sock_addr * RES[3]; static int res_mode;
+struct sock_addr ** stub_resolve(const char * addr)
+{
+	(void)addr;
+	if (res_mode == 0) return NULL;
+	struct sock_addr ** sas = malloc((NRES + 1) * sizeof(*sas)); ASSUME(sas != NULL);
+	for (int i = 0; i < NRES; i++) { RES[i] = mk(4); ASSUME(RES[i] != NULL); sas[i] = RES[i]; }
+	sas[NRES] = NULL;
+	return sas;
+}
+void h_resolve_one(void)
+{
+	static char A[] = "[1.2.3.4]:80";
+	res_mode = nd_bool();
+	struct sock_addr * sa = sock_resolve_one(A, 0);
+	if (res_mode == 0 || NRES == 0) CHECK(sa == NULL, "no address => NULL");
+	else { CHECK(sa == RES[0], "the first address of the list is returned"); sock_addr_free(sa); }
+	REACHED();	/* --memory-leak-check: the list and every other address were released */
+}
+
+/* ---- h_ensure_port ---- */
+void h_ensure_port(void)
+{
+	for (size_t n = MINL; n <= MAXL; n++) {
+		char * S = malloc(n + 1);
+		if (S == NULL) continue;
+		int nonul = 1;
+		for (size_t i = 0; i < n; i++) { S[i] = (char)nd_u8(); if (S[i] == 0) nonul = 0; }
+		S[n] = 0;
+		if (nonul) {
+			fmt_slen = n; fmt_bad = 0; sd_bad = 0; sd_hint = (size_t)-1;
+			char * r = sock_addr_ensure_port(S);
+			CHECK(r != NULL && !fmt_bad && !sd_bad, "a string is returned (harness: models saw the lengths they assumed)");
+			if (r != NULL) {
+				/* reference: the rightmost ':' is a port separator unless the text is bracketed and the bracket does not close right before it */
+				size_t c = n; for (size_t i = 0; i < n; i++) if (S[i] == ':') c = i;
+				int hasport = (n > 0 && c == 0) || (n > 0 && S[0] == '/') || (n > 0 && S[0] != '[' && c != n) || (n > 0 && S[0] == '[' && c != n && S[c - 1] == ']') ;
+				if (n == 0) hasport = 0;
+				size_t want = hasport ? n : n + 2, k = nd_size();
+#ifdef VH_CBMC
+				CHECK(__CPROVER_OBJECT_SIZE(r) == want + 1, "result is the address, with \":0\" appended iff it had no port and is not a Unix path");
+#endif
+				if (k < n) CHECK(r[k] == S[k], "the address text is kept");
+				if (!hasport) CHECK(r[n] == ':' && r[n + 1] == '0' && r[n + 2] == 0, "\":0\" appended");
+				else CHECK(r[n] == 0, "nothing appended");
+				free(r);
+			}
+			if (n == MAXL) REACHED();
+		}
+		free(S);
+	}
 }
